@@ -8,7 +8,7 @@ from . import _difffam as FAM
 
 ID = 'C11'
 LEAN_TARGETS = ['Properties.C11']
-THEOREMS = ['DiffO.C11_similar_empty', 'DiffO.C11_case_leaf', 'DiffO.C11_strtype_leaf', 'DiffO.C11_numtype_leaf', 'DiffO.C11_epsilon_leaf', 'DiffO.C11_significant_leaf', 'DiffO.C11_excluded_leaf', 'DiffO.C11_private_key', 'DiffO.C11_exclude_misaligned_fixed', 'DiffO.C11_N_colliding_keys_order']
+THEOREMS = ['DiffO.C11_similar_empty', 'DiffO.C11_case_leaf', 'DiffO.C11_strtype_leaf', 'DiffO.C11_numtype_leaf', 'DiffO.C11_epsilon_leaf', 'DiffO.C11_significant_leaf', 'DiffO.C11_excluded_leaf', 'DiffO.C11_private_key', 'DiffO.C11_exclude_misaligned_fixed', 'DiffO.C11_N_colliding_keys_order', 'DiffO.C11_copy_empty_all_options']
 RULE = ('nested values (dict with str/int/float/None keys, list, tuple, set of scalars; leaves str, bytes, int, float, bool, None, aware/naive datetimes, enum members, nan) x '
         'each option F in {ignore_string_case, ignore_string_type_changes, ignore_numeric_type_changes, significant_digits, math_epsilon, truncate_datetime, default_timezone, '
         'ignore_private_variables, exclude_types, ignore_nan_inequality, use_enum_value} and pairs of options x a normaliser for F applied at 1..all eligible positions, dict keys '
